@@ -304,11 +304,36 @@ impl RpcService for EchoSvc {
     }
 }
 
+pub static ECHO_RUNS: std::sync::atomic::AtomicUsize = std::sync::atomic::AtomicUsize::new(0);
+
 #[datacake_rpc::async_trait]
 impl Handler<Payload> for EchoSvc {
     type Reply = Payload;
     async fn on_message(&self, msg: Request<Payload>) -> Result<Self::Reply, Status> {
+        ECHO_RUNS.fetch_add(1, std::sync::atomic::Ordering::SeqCst);
         msg.deserialize_view().map_err(Status::internal)
+    }
+}
+
+/// What a peer that sends anything it likes looks like, built from the public client API: the request path of
+/// EchoSvc's `Payload` handler, the body handed over raw (any bytes, in any chunks, under any announced length).
+pub struct RawPeer;
+
+impl RpcService for RawPeer {
+    fn service_name() -> &'static str {
+        <EchoSvc as RpcService>::service_name()
+    }
+    fn register_handlers(_registry: &mut ServiceRegistry<Self>) {}
+}
+
+#[datacake_rpc::async_trait]
+impl Handler<datacake_rpc::Body> for RawPeer {
+    type Reply = Payload;
+    fn path() -> &'static str {
+        <EchoSvc as Handler<Payload>>::path()
+    }
+    async fn on_message(&self, _msg: Request<datacake_rpc::Body>) -> Result<Self::Reply, Status> {
+        unreachable!("client side stub")
     }
 }
 
@@ -550,6 +575,63 @@ impl Domain for RpcDomain {
                     },
                     Err(s) => format!("echo {}", status_str(&s)),
                 }
+            },
+            "rawframe" => {
+                // rawframe <seed> <size> <none|trunc:<n>|flip:<bit>> <cuts|-> <declared|-|actual>
+                // The frame of a Payload, damaged or not, is sent over the real transport in the given chunks (100 ms apart)
+                // under an announced content-length; prints what the sender observed, how many handlers ran, how many panics
+                // happened anywhere in the process meanwhile, and the bytes that were sent.
+                use std::sync::atomic::Ordering;
+                let v = make_payload(p_u64(t[1]), p_u64(t[2]) as usize);
+                let mut frame: Vec<u8> = datacake_rpc::to_view_bytes(&v).expect("serialize").to_vec();
+                if let Some(n) = t[3].strip_prefix("trunc:") {
+                    frame.truncate(p_u64(n) as usize);
+                } else if let Some(b) = t[3].strip_prefix("flip:") {
+                    let b = p_u64(b) as usize % (frame.len() * 8);
+                    frame[b / 8] ^= 1 << (b % 8);
+                }
+                let mut cuts: Vec<usize> = if t[4] == "-" { vec![] } else { t[4].split(',').map(|c| (p_u64(c) as usize).min(frame.len())).collect() };
+                cuts.sort();
+                cuts.dedup();
+                let mut chunks: Vec<Vec<u8>> = Vec::new();
+                let mut prev = 0;
+                for c in cuts.into_iter().chain(std::iter::once(frame.len())) {
+                    if c > prev { chunks.push(frame[prev..c].to_vec()); prev = c; }
+                }
+                let declared: Option<u64> = match t[5] { "-" => None, "actual" => Some(frame.len() as u64), x => Some(p_u64(x)) };
+                self.server();
+                let addr = self.addr;
+                let (runs0, panics0) = (ECHO_RUNS.load(Ordering::SeqCst), crate::PANICS.load(Ordering::SeqCst));
+                let outcome = runtime().block_on(async move {
+                    let client = RpcClient::<RawPeer>::new(Channel::connect(addr));
+                    let (mut tx, body) = hyper::Body::channel();
+                    let feeder = tokio::spawn(async move {
+                        for (k, c) in chunks.into_iter().enumerate() {
+                            if k > 0 { tokio::time::sleep(Duration::from_millis(100)).await; }
+                            if tx.send_data(bytes::Bytes::from(c)).await.is_err() { return; }
+                        }
+                        tokio::time::sleep(Duration::from_millis(200)).await;
+                        drop(tx);
+                    });
+                    let mut ctx = client.create_rpc_context();
+                    if let Some(len) = declared {
+                        ctx = ctx.set_header(http::header::CONTENT_LENGTH, http::HeaderValue::from(len));
+                    }
+                    let res = tokio::time::timeout(Duration::from_secs(10), ctx.send_owned(datacake_rpc::Body::new(body))).await;
+                    feeder.abort();
+                    match res {
+                        Err(_) => "pending".to_string(),
+                        Ok(Ok(reply)) => match reply.deserialize_view() {
+                            Ok(back) => if back == v { "echo".to_string() } else { "echo-other".to_string() },
+                            Err(_) => "undecodable".to_string(),
+                        },
+                        Ok(Err(s)) => status_str(&s),
+                    }
+                });
+                // a panicking connection task is noticed by the hook at once; give a slow one a moment
+                std::thread::sleep(Duration::from_millis(50));
+                format!("rawframe {} runs={} panics={} frame={}", outcome, ECHO_RUNS.load(Ordering::SeqCst) - runs0,
+                        crate::PANICS.load(Ordering::SeqCst) - panics0, if frame.is_empty() { "-".to_string() } else { hex(&frame) })
             },
             "wide" => {
                 // wide <offset> <delta>: a message with a `usize` and an `isize` field; prints what the handler observed
